@@ -8,7 +8,9 @@ export GOFLAGS=-mod=mod GOPROXY=off GOSUMDB=off GOTOOLCHAIN=local
 cd /verif
 rm -rf /var/tmp/verif-C09-cov-keep /var/tmp/verif-covdata
 before=$(ls -d /var/tmp/verif-C09-* 2>/dev/null || true)
+cp evidence/C09.json /var/tmp/verif-evidence-C09.keep 2>/dev/null || true
 VERIF_KEEP_SCRATCH=1 VERIF_QUICK_RUNS=100 ./check C09 quick > /dev/null 2>&1 || true
+cp /var/tmp/verif-evidence-C09.keep evidence/C09.json 2>/dev/null || true   # the tool's short run is not evidence
 S=""
 for d in /var/tmp/verif-C09-*; do case " $before " in *" $d "*) ;; *) S=$d;; esac; done
 [ -n "$S" ] || { echo "no scratch dir"; exit 2; }
